@@ -150,4 +150,53 @@ CLAIMS["C06"] = {
   "technique": "Coq proof (nested agreement by induction on fuel; mode-independent specifications of the loops; class-level refinement of one specification by all three templates) + differential correspondence + pairwise oracle",
   "design_ref": "DESIGN.md 4/C06"}
 
+CLAIMS["C05"] = {
+  "text": "Props/C05.v over the exception trees Model/Conv.v builds and Model/ConvErr.v's transform_error ([paths]); no hypothesis on the payload, so every number and placement of faults is covered. "
+          "C05_sequence_group_is_exact: the iterable-level group of a collection holds EXACTLY one entry per element whose hook failed (that element's own error, annotated with its index, in order) "
+          "and nothing for succeeding elements; C05_tuple_group_is_exact / C05_mapping_group_is_exact: the same for heterogeneous tuples and mappings (note = the entry's key); "
+          "C05_class_group_is_exact: for any class, options, overrides, handlers and dict payload the class-level group holds exactly the attempted attributes whose handler or key lookup failed "
+          "(note = attribute name, attribute order) followed by at most one un-annotated ForbiddenExtraKeysError naming exactly the unknown keys; C05_transform_is_compositional + C05_sequence_paths: "
+          "transform_error is total and reports a leaf at its own path and, for a group, the paths of its annotated children below .name / [index] in order, then the un-annotated entries at its own "
+          "path -- so the reported paths are exactly the failing components, at every depth. Tie: CONV/ERR lane -- the exception tree (group kinds, class ids, notes, order) and the transform_error "
+          "paths of the implementation equal the model's on every faulted payload -- plus the direct oracle: inject k independent faults into a valid payload, demand exactly the k fault paths, "
+          "class-level groups at class / TypedDict positions, iterable-level at collections, every note carrying the name / index / key and the declared type.",
+  "note": TB_CONV + " The global statement ('exactly the k fault paths') is the composition of the per-loop exactness theorems with the equations of [paths]; it is not packaged as one theorem over a "
+          "fault-injection relation. Leaf exception CLASSES and message texts are not modelled (format_exception); TypedDict positions are decided by the oracle only; set / frozenset / deque loops "
+          "have the same shape as the sequence loop but no separate theorem.",
+  "technique": "Coq proof (exact characterisation of every error-collecting loop + compositional transform_error) + differential correspondence of exception trees + fault-injection oracle",
+  "design_ref": "DESIGN.md 4/C05"}
+
+
+CLAIMS["C11"] = {
+  "text": "Props/C11.v over Model/Alias.v (a store of mutable dicts addressed by object id; a hook that edits a working dict by an ARBITRARY sequence of res[k]=v / del res[k] / res.pop(k) / "
+          "res.pop(k, None) edits, stopped wherever one raises; the working dict is a fresh copy of the argument or the argument itself according to a flag translator T1 reads off the current source: "
+          "every in-place edit of `val` in the four structure_tagged_union variants is dominated by `val = val.copy()`, the unstructure wrapper never edits its argument, the generated TypedDict hooks edit "
+          "`res` initialised by `res = o.copy()` / `res = instance.copy()`). C11_argument_never_modified: for every store, argument and edit sequence, success or failure, every object that existed "
+          "before the call -- the argument included -- keeps exactly its contents; C11_result_is_a_new_object: the returned dict did not exist before; C11_no_copy_only_without_edits: the non-copying "
+          "variants perform no edit. The model can exhibit the failure (C11_refuted_without_copy) and shows the full statement false for TypedDict payloads with unknown keys "
+          "(C11_refuted_shallow_copy_shares_untouched_values = finding F4). PARTIAL: that the remaining hooks build fresh containers (comprehensions / constructors in converters.py, cols.py, "
+          "gen/__init__.py) is not a theorem -- Python object identity is outside the value model of Conv.v -- and is decided by the ALIAS lane on the implementation: a deep identity snapshot of the "
+          "argument before/after every call (also when it raises) and the intersection of the mutable containers reachable from argument and result, minus the documented pass-throughs "
+          "(Any / untyped positions when structuring; identity TypedDicts and types BaseConverter has no hook for when unstructuring).",
+  "note": "Trusted: Coq kernel incl. vm_compute; translator T1 (section `alias`: a syntactic dominance check over four small functions and a regex over the generated-code string constants of gen/typeddicts.py); "
+          "the ALIAS lane (Python id()-based observation). Modelled-not-verified: dict.copy() is shallow and allocates a new object; CPython object identity. Print Assumptions: closed under the global context.",
+  "technique": "Coq proof (frame property of copy-then-edit hooks over an object store, for all edit sequences) + AST translator (copy dominates every in-place edit) + identity-snapshot differential testing",
+  "design_ref": "DESIGN.md 4/C11"}
+
+
+CLAIMS["C16"] = {
+  "text": "PARTIAL. Theorem C16_json_dumps_total (Props/C16.v): the JSON converter is modelled as the plain Converter plus a context-free post-processing of its unstructured form (Model/Preconf.v jsonify: "
+          "bytes -> base85 text, abc.Set -> list); for every environment, nested type, value of the type and strategy, whenever the mapping keys of the unstructured form are atoms (the documented limit of "
+          "JSON object keys) what is handed to json.dumps lies inside the data model json.dumps accepts (jsonable) -- 'dumps never fails' for the json format, on top of C03's theorem. No theorem can state "
+          "loads(dumps(x, T), T) == x: it would need the serialisation library. Decided on every run by the PRE lane instead, for the three libraries importable here (json, pyyaml, msgspec; bson, "
+          "orjson, ujson, msgpack, cbor2, tomlkit are absent and reported as not present): dumps succeeds and the round trip is deeply equal on generated worlds incl. bytes, datetime, date, sets, "
+          "enums, literals, non-string mapping keys, recursive classes; the model's jsonify equals the real JSON converter's unstructured form and the model's json_rt equals json.loads(json.dumps(.)) on "
+          "every case; user hooks registered on such a converter are used at top level, in a list, inside an attrs class and inside a dataclass (precedence itself: C07).",
+  "note": TB_CONV + " The base85 codec and json's key coercion are oracles (tables computed with the real functions). pyyaml and msgspec have no model: oracle only. Genuine defects found: F28 (msgspec converter handed "
+          "every dataclass to msgspec: user hooks bypassed, private attributes of nested attrs classes dropped) -- fixed in /repo d4e1417; F29 (msgspec converter cannot create the hook of a self-referential "
+          "class: RecursionError) -- open known finding; F19 (bool-keyed mappings in text formats) -- treated as outside the documented limits.",
+  "technique": "Coq proof (encodability of the post-processed unstructured form, on top of the primitive-output theorem) + differential correspondence of the JSON layer + round-trip and user-hook oracles on the real libraries",
+  "design_ref": "DESIGN.md 4/C16"}
+
+
 NOT_APPLICABLE = {}
